@@ -25,12 +25,12 @@ from .. import tlc
 from ..core import Ctx, use_repo
 
 SPEC = 'spec/proto'
-MC_CFGS = ['cuts', 'three', 'fw', 'hostile', 'pay']
+MC_CFGS = ['cuts', 'three', 'nr', 'fw', 'hostile', 'pay']
 DEVS = {            # deviation -> configuration in which TLC must find the violation
     'discard': 'cuts', 'metakeys': 'hostile', 'chanunhash': 'hostile',
     'tilde': 'pay', 'valuekey': 'pay', 'errsilent': 'pay',
 }
-ACTIONS = ['Send', 'Read', 'Reply', 'Hostile', 'Quiet', 'Execute', 'Reject', 'Deliver', 'HDispatch', 'HChan', 'Probe']
+ACTIONS = ['Send', 'Read', 'Reply', 'Hostile', 'Quiet', 'Execute', 'Reject', 'Deliver', 'HDispatch', 'HValue', 'HChan', 'Probe']
 HOSTILE_CLASSES = ['trunc', 'types', 'missing', 'oversize', 'delim', 'chanlist', 'vforge', 'vtypes', 'utf8']
 META_KEYS = ['cause', 'effects', 'cause+effects', 'complete_channels', 'success_channels', 'value', 'handler',
              'channels', 'waitingHandlers', 'cancelled', 'stopped', 'name', 'alert_done', 'success', 'failure',
@@ -49,7 +49,7 @@ def realise(hist):
         if op == 'C':
             fw = h[1]
         elif op == 'S':
-            script.append(('S', h[1], h[2], h[3]))
+            script.append(('S', h[1], h[2], h[3], 0, h[4]))
         elif op == 'R':
             script.append(('R', h[4], h[5]))
         elif op == 'P':
@@ -104,7 +104,7 @@ def norm_model(lines):
         if k == 'cfg':
             res.append((k, ln['a'], ln['b']))
         elif k == 'send':
-            res.append((k, ln['id'], ln['b'], ln['c']))
+            res.append((k, ln['id'], ln['b'], ln['c'], ln['s']))
         elif k in ('wr', 'read', 'escape'):
             res.append((k, ln['id']))
         elif k == 'exec':
@@ -135,7 +135,7 @@ def norm_real(world, upto=None):
         elif k == 'cfg':
             res.append((k, ln['a'], ln['b']))
         elif k == 'send':
-            res.append((k, ln['id'], ln['b'], ln['c']))
+            res.append((k, ln['id'], ln['b'], ln['c'], ln['s']))
         elif k in ('wr', 'read', 'escape'):
             res.append((k, ln['id']))
         elif k == 'release':
@@ -169,7 +169,7 @@ def random_script(rnd, quick):
             size = 'b' if rnd.random() < 0.2 else 's'
             pay = rnd.choice(['plain'] * 8 + ['tilde', 'valkey'])
             fwk = rnd.choice(['ok'] * 4 + ['sblk', 'rblk'])
-            script.append(('S', size, pay, fwk))
+            script.append(('S', size, pay, fwk, 0, 1 if rnd.random() < 0.25 else 0))
             nsend += 1
             outstanding.append(nsend)
         elif r < 0.7:
@@ -183,7 +183,10 @@ def random_script(rnd, quick):
             outstanding.remove(sid)
             script.append(('P', sid, rnd.choice([1, 1, 2]), rnd.random() < 0.1))
         elif hostile_ok:
-            if rnd.random() < 0.5:
+            q = rnd.random()
+            if q < 0.25:
+                script.append(('H', 'vmeta', rnd.choice(META_KEYS), 1, rnd.randint(0, 11)))
+            elif q < 0.55:
                 script.append(('H', 'meta', rnd.choice(META_KEYS), rnd.choice([1, 1, 0]), rnd.randint(0, 11)))
             else:
                 script.append(('H', rnd.choice(HOSTILE_CLASSES), '', rnd.choice([1, 1, 0]), rnd.randint(0, 11)))
@@ -387,7 +390,7 @@ def run(tier, replay=None):
     tick('deviations present in the tree under test: %s' % present)
 
     # 2. every environment history of the model (variant Dev = deviations present) up to the bound (spec -> code)
-    hist_cfgs = ['cuts', 'three', 'fw', 'hostile', 'pay']
+    hist_cfgs = ['cuts', 'three', 'nr', 'fw', 'hostile', 'pay']
     wd = tlc.workdir('c19cfg')
     try:
         def do_hist(c):
@@ -459,9 +462,41 @@ def run(tier, replay=None):
                 items.append(({'fw': '--', 'script': script, 'seed': seed, 'variant': variant, 'huge': variant % 2 == 1,
                                'origin': 'hostile-enum'}, run_script('--', script, seed, variant, huge=variant % 2 == 1)))
 
+    # 2b'. hostile metadata in a *value* packet answering a call in flight (every key x variant), and
+    # after the call has been answered
+    for key in META_KEYS:
+        for variant in range(nvar):
+            pre = [('S', 's', 'plain', 'ok')] if variant % 4 != 3 else [('S', 's', 'plain', 'ok'), ('Rb', 0, 4096), ('P', 1, 1, False), ('Rb', 1, 4096)]
+            script = pre + [('H', 'vmeta', key, 1, variant)]
+            seed = ctx.seed + 41 * variant
+            items.append(({'fw': '--', 'script': script, 'seed': seed, 'variant': variant, 'origin': 'hostile-value-enum'},
+                          run_script('--', script, seed, variant)))
+
+    # 2b''. sends nobody waits for (node_without_result) interleaved with calls on one connection:
+    # every pattern of up to 3 sends, callee completions in every order, each answer in a read of its own
+    # or all answers in one read
+    import itertools
+    for n in (2, 3):
+        for pattern in itertools.product((0, 1), repeat=n):
+            if not any(pattern) or (quick and n == 3 and sum(pattern) == 3):
+                continue
+            sends = [('S', 's', 'plain', 'ok', 0, nrf) for nrf in pattern]
+            orders = list(itertools.permutations(range(1, n + 1)))
+            if quick:
+                orders = [orders[0], orders[-1]]
+            for order in orders:
+                for separate in (True, False):
+                    script = list(sends) + [('Rb', 0, 4096)]
+                    for sid in order:
+                        script.append(('P', sid, 1, False))
+                        if separate:
+                            script.append(('Rb', 1, 4096))
+                    seed = ctx.seed + 13 * len(items)
+                    items.append(({'fw': '--', 'script': script, 'seed': seed, 'origin': 'no-result-enum'},
+                                  run_script('--', script, seed)))
+
     # 2c. one process holding two connections (Node with two peers): sends on both, every order of
     # arrival and completion (outside the model, which has one connection; judged by the same monitor)
-    import itertools
     two = []
     for nper in ((1, 1), (2, 1)):
         sends = [('S', 's', 'plain', 'ok', c) for c in (0, 1) for _ in range(nper[c])]
@@ -491,7 +526,8 @@ def run(tier, replay=None):
         if i % 5 == 4 and not any(st[0] == 'H' for st in script):
             # the same scenario spread over two connections of one process
             nconn = 2
-            script = [st + (rnd.randint(0, 1),) if st[0] in ('S', 'Rb') else st for st in script]
+            script = [(st[:4] + (rnd.randint(0, 1),) + st[5:]) if st[0] == 'S' else (st + (rnd.randint(0, 1),) if st[0] == 'Rb' else st)
+                      for st in script]
         items.append(({'fw': fw, 'script': script, 'seed': seed, 'origin': 'random', 'huge': huge, 'nconn': nconn},
                       run_script(fw, script, seed, huge=huge, nconn=nconn)))
 
